@@ -487,8 +487,10 @@ def step3 (st : DState) (toks : List String) : DState × String :=
         -- the snapshot request queues behind the API calls already sent: one message per iteration
         let n := st.apiQ.length + 1
         let st := { st with apiQ := st.apiQ ++ [.noop] }
-        let (st, a) := (List.range n).foldl (fun (acc : DState × Actor) _ => nodeStep acc.1 acc.2 none) (st, a)
-        let snap := showSnapshot st a
+        let (st, a) := (List.range (n - 1)).foldl (fun (acc : DState × Actor) _ => nodeStep acc.1 acc.2 none) (st, a)
+        -- the snapshot is taken when its message is picked up, before the maintenance of that iteration
+        let snap := showSnapshot st (a.observed (nodeEnv st) none (some .noop))
+        let (st, a) := nodeStep st a none
         let (st, line) := nodeFlush st a
         (st, snap ++ " " ++ line)
       | none => (st, "dead")
